@@ -186,6 +186,7 @@ type Exec struct {
 	fresh    int
 	modPkgs  map[string]bool
 	maxPaths int
+	phiAlias map[string]string
 	deadline time.Time // per-run wall-clock limit: a run that explodes ends in an error (the check falls back to its replay battery)
 	nPaths   int
 	cutW     []int
